@@ -425,3 +425,14 @@ def run(facts, rep, ctx):
     ts7(facts, rep)
     ef6(facts, rep)
     ef7(facts, rep)
+
+
+_run_before_round2 = run
+
+
+def run(facts, rep, ctx):
+    """rules added after the second round of independent seeding (rules/round2.py)"""
+    _run_before_round2(facts, rep, ctx)
+    from . import round2
+    round2.ef7b(facts, rep)
+
